@@ -316,7 +316,8 @@ func (v *Vue) buildStyleString(pairs []objectPair) string {
 	var styles []string
 
 	for _, pair := range pairs {
-		if !pair.ok {
+		if !pair.ok || pair.val == nil {
+			// a property without a value contributes nothing (not "color:<nil>;")
 			continue
 		}
 
